@@ -545,10 +545,10 @@ def instr_view(view, body_nums):
     ordinal = {r["num"]: k for k, r in enumerate(instr)}
     per = [(r["text"], r["pressure"], r["tp"], r["lat"], r["lat_wo_load"], r["lat_cp"], r["lat_lcd"], r["flags"], r["uops"])
            for r in instr]
-    cp = sorted(ordinal.get(n, "non-instr:%s" % n) for n in view["cp_lines"])
+    cp = sorted((ordinal.get(n, "non-instr:%s" % n) for n in view["cp_lines"]), key=lambda t: (isinstance(t, str), t))
     # the dict key of a loop-carried dependency is the "-"-joined list of its line numbers: only the members count
-    lcd = sorted((v["latency"], [(ordinal.get(d[0], "non-instr:%s" % d[0]), d[1]) for d in v["deps"]])
-                 for v in view["lcd"].values())
+    lcd = sorted(((v["latency"], [(ordinal.get(d[0], "non-instr:%s" % d[0]), d[1]) for d in v["deps"]])
+                  for v in view["lcd"].values()), key=lambda t: (t[0], repr(t[1])))
     tab = {n: cells for n, cells in view["table"]}
     table = [tab.get(r["num"]) for r in instr]
     return {"per": per, "cp": cp, "lcd": lcd, "tp_sum": view["tp_sum"], "cp_sum": view["cp_sum"], "lcd_sum": view["lcd_sum"],
